@@ -1,5 +1,6 @@
 import Lean.Data.Json
 import Physt.Model.Hist1D
+import Physt.Model.DTypeMachine
 import Physt.Model.FloatInst
 import Physt.Model.Json
 /-!
@@ -371,6 +372,15 @@ def runCase (case : Json) : E Json := do
   match kind with
   | "hist1" => runHist1 fo case
   | "tables" => pure runTables
+  | "dtm" =>
+    -- the dtype machine (`Model/DTypeMachine.lean`): the first line constructs, the others are operations; the answer is
+    -- the state (reported, frequencies, errors2, missed element types, NaN flag) after every line
+    let lines ← getList (fun j => j.getStr?) (← field case "lines")
+    match lines.mapM DOp.parse? with
+    | none => throw "dtm: a line does not parse"
+    | some ops =>
+      let states := DState.trace Cfg.current default ops
+      pure (Json.arr (states.map fun st => Json.str st.toString).toArray)
   | _ => throw s!"unknown kind {kind}"
 
 def handleLine (line : String) : String :=
